@@ -949,8 +949,23 @@ func c15KeyRewritesIn(f *kit.Func) []c15Norm {
 }
 
 func c15R2(c *kit.Ctx, a *c15Anchors, r2 *kit.Rule) {
-	m := newStoreModel(c)
-	writers := map[string]*pointWriter{"Points": m.writer("node_points"), "EdgePoints": m.writer("edge_points")}
+	// the store's point writers: the functions that execute the prepared INSERT
+	// into node_points / edge_points (found here without the store model's own
+	// floors, so that an unrelated store refactoring does not stop this property)
+	sql := c.P.SQLModelOf("store")
+	find := func(table string) *pointWriter {
+		var w *pointWriter
+		for _, s := range sql.Sites {
+			if s.Recv == "stmt" && s.Method == "Exec" && s.HasVerb("INSERT", table) {
+				if w != nil && w.F != s.F.Root() {
+					c.Fatalf("two store writers insert into %s: %s and %s", table, w.F.Name, s.F.Root().Name)
+				}
+				w = &pointWriter{F: s.F.Root(), Table: table, Exec: s}
+			}
+		}
+		return w
+	}
+	writers := map[string]*pointWriter{"Points": find("node_points"), "EdgePoints": find("edge_points")}
 	for k, w := range writers {
 		if w == nil {
 			c.Fatalf("store point writer for %s not found", k)
